@@ -239,3 +239,221 @@ Example C17_backoff_instance :
   fst (ms_run_backoff ms_limit_ns (9223372036854775807 * 10 ^ 9) (18446744073709551615 * 10 ^ 9 + 999999999) 3)
   = [9223372036854775807 * 10 ^ 9; 18446744073709551614 * 10 ^ 9; 18446744073709551615 * 10 ^ 9 + 999999999].
 Proof. vm_compute. split; reflexivity. Qed.
+
+(* ---- agreement of the hand-written models with the tables regenerated from the source on every run
+   (tools/gen/gen_master_tables.py -> gen/MasterTables.v; lemmas, interpreters and observers in
+   Master/TablesAgree.v, module MTab).  `.._is_table`: the model's function IS the interpreter run over the
+   generated table; `.._observed`: the order the model serves things in, observed on enumerated states. *)
+From Coq Require Import String List.
+From Dnp3V Require Import Base.Bytes Master.Backoff Master.Assoc Master.Sched Master.MParse Master.Command Master.MTask
+  Master.TimeSync gen.MasterTables Master.TablesAgree.
+Import MTab.
+Local Open Scope string_scope.
+Local Open Scope list_scope.
+Local Open Scope N_scope.
+
+(* the fields of the model's record are the fields of struct TaskStates, in the same order *)
+Theorem C17_tables_slots_are_the_fields : map slot_name all_slots = gm_task_states_fields.
+Proof. exact MTab.slots_are_the_fields. Qed.
+Print Assumptions C17_tables_slots_are_the_fields.
+
+Theorem C17_tables_config_fields_modelled :
+  forallb cfg_field_modelled gm_config_fields = true /\ length gm_config_fields = 10%nat.
+Proof. exact MTab.config_fields_modelled. Qed.
+Print Assumptions C17_tables_config_fields_modelled.
+
+(* the model's TaskStates::next is the interpreter run over the generated table: same order, same
+   guards, same tasks *)
+Theorem C17_tables_auto_next_is_table : forall c ts events now,
+  auto_dispatch gm_auto_order c ts events now = Some (ms_auto_next c ts events now).
+Proof. exact MTab.auto_next_is_table. Qed.
+Print Assumptions C17_tables_auto_next_is_table.
+
+Theorem C17_tables_auto_order_observed : map slot_name (observe_order 6 all_slots) = generated_auto_order.
+Proof. exact MTab.auto_order_observed. Qed.
+Print Assumptions C17_tables_auto_order_observed.
+
+Theorem C17_tables_auto_order_all_pairs :
+  forallb (fun i => forallb (fun j =>
+     slot_eqb i j || opt_slot_eqb (winner cfg_all 7 [i; j]) (Some (if earlier i j then i else j)))
+     [SDisable; SIntegrity; SEnable; SClear; STime; SEvscan])
+     [SDisable; SIntegrity; SEnable; SClear; STime; SEvscan] = true.
+Proof. exact MTab.auto_order_all_pairs. Qed.
+Print Assumptions C17_tables_auto_order_all_pairs.
+
+Theorem C17_tables_auto_order_all_subsets :
+  forallb (fun p => forallb (fun d => forallb (fun i => forallb (fun e => forallb (fun t => forallb (fun v =>
+    forallb (fun ev => opt_slot_eqb (winner (cfg_of d i e t v) ev p) (table_winner gm_auto_order (cfg_of d i e t v) ev p))
+    [0; 1; 6]) [0; 3]) [0; 2]) [0; 4]) [0; 8]) [0; 2])
+    (subsets [SDisable; SIntegrity; SEnable; SClear; STime; SEvscan]) = true.
+Proof. exact MTab.auto_order_all_subsets. Qed.
+Print Assumptions C17_tables_auto_order_all_subsets.
+
+(* TaskStates::new *)
+Theorem C17_tables_task_states_new : forall ts0, ts_from_table gm_task_states_new ts0 = Some ms_ts_new.
+Proof. exact MTab.task_states_new_agrees. Qed.
+Print Assumptions C17_tables_task_states_new.
+
+(* TaskStates::on_restart_iin *)
+Theorem C17_tables_on_restart_iin : forall ts, apply_demands gm_on_restart_iin_demands ts = Some (ms_ts_on_restart ts).
+Proof. exact MTab.on_restart_iin_agrees. Qed.
+Print Assumptions C17_tables_on_restart_iin.
+
+(* the model's counterparts of the on_* functions *)
+Theorem C17_tables_on_restart_iin_observed : forall now bits a,
+  run_handler "on_restart_iin_observed" now bits a = Some (fst (ms_on_restart now a)).
+Proof. exact MTab.on_restart_iin_observed_agrees. Qed.
+Print Assumptions C17_tables_on_restart_iin_observed.
+
+(* Association::reset *)
+Theorem C17_tables_association_reset : forall now a, run_actions now gm_association_reset a = Some (ms_assoc_reset a).
+Proof. exact MTab.association_reset_agrees. Qed.
+Print Assumptions C17_tables_association_reset.
+
+Theorem C17_tables_handlers : forall now bits a m id tok,
+  run_handler "on_integrity_scan_complete" now bits a = Some (fst (ms_read_complete now (MsTIntegrity m) a)) /\
+  run_handler "on_event_scan_complete" now bits a = Some (fst (ms_read_complete now (MsTEventScan m) a)) /\
+  run_handler "on_integrity_scan_failure" now bits a = Some (fst (ms_task_error now (MsTIntegrity m) MsETimeout false a)) /\
+  run_handler "on_event_scan_failure" now bits a = Some (fst (ms_task_error now (MsTEventScan m) MsETimeout false a)) /\
+  run_handler "on_clear_restart_iin_failure" now bits a = Some (fst (ms_task_error now MsTClearRestart MsETimeout false a)) /\
+  run_handler "on_enable_unsolicited_failure" now bits a = Some (fst (ms_task_error now (MsTEnableUnsol m) MsETimeout false a)) /\
+  run_handler "on_disable_unsolicited_failure" now bits a = Some (fst (ms_task_error now (MsTDisableUnsol m) MsETimeout false a)) /\
+  run_handler "on_enable_unsolicited_response" now bits a = Some (fst (ms_task_error now (MsTEnableUnsol m) MsEIin2 false a)) /\
+  run_handler "on_disable_unsolicited_response" now bits a = Some (fst (ms_task_error now (MsTDisableUnsol m) MsEIin2 false a)) /\
+  run_handler "on_time_sync_failure" now bits a = Some (fst (ms_tsync_report now None (Some MsETimeout) a)) /\
+  run_handler "on_time_sync_success" now bits a = Some (fst (ms_tsync_report now None None a)) /\
+  (* polls and user requests touch no automatic task *)
+  ms_a_auto (fst (ms_task_error now (MsTPoll id m) MsETimeout false a)) = ms_a_auto a /\
+  ms_a_auto (fst (ms_task_error now (MsTUserRead m tok) MsETimeout false a)) = ms_a_auto a.
+Proof. exact MTab.handlers_agree. Qed.
+Print Assumptions C17_tables_handlers.
+
+(* on_clear_restart_iin_response: by the response itself, or by the IIN of a RejectedByIin2 error *)
+Theorem C17_tables_clear_restart_response : forall now a f sys restart,
+  run_handler "on_clear_restart_iin_response" now (iin_of f) a
+    = Some (fst (fst (ms_nonread_handle now sys MsTClearRestart f a))) /\
+  run_handler "on_clear_restart_iin_response" now (fun _ _ => restart) a
+    = Some (fst (ms_task_error now MsTClearRestart MsEIin2 restart a)).
+Proof. exact MTab.on_clear_restart_iin_response_agrees. Qed.
+Print Assumptions C17_tables_clear_restart_response.
+
+(* the response handlers of the automatic tasks *)
+Theorem C17_tables_auto_response_handlers : forall now a f sys m,
+  run_handler "on_disable_unsolicited_response" now (iin_of f) a
+    = Some (fst (fst (ms_nonread_handle now sys (MsTDisableUnsol m) f a))) /\
+  run_handler "on_enable_unsolicited_response" now (iin_of f) a
+    = Some (fst (fst (ms_nonread_handle now sys (MsTEnableUnsol m) f a))).
+Proof. exact MTab.auto_response_handlers_agree. Qed.
+Print Assumptions C17_tables_auto_response_handlers.
+
+(* the model's process_iin is: the generated triggers in order, each calling its generated handler; the
+   class bits; the event scan demand *)
+Theorem C17_tables_process_iin_is_table : forall now f a,
+  ref_process_iin now f a = Some (fst (ms_process_iin now f a)).
+Proof. exact MTab.process_iin_is_table. Qed.
+Print Assumptions C17_tables_process_iin_is_table.
+
+Theorem C17_tables_iin_event_bits :
+  forallb (fun i1 => match events_from_table gm_process_iin_events i1 0 with
+                     | Some m => N.eqb (N.land (N.shiftr i1 1) 7) m
+                     | None => false
+                     end) (nrange 256) = true.
+Proof. exact MTab.iin_event_bits_agree. Qed.
+Print Assumptions C17_tables_iin_event_bits.
+
+Theorem C17_tables_iin_bit_effects_observed :
+  map (fun bb => observed_effect (fst bb) (snd bb))
+      [(1,0); (1,1); (1,2); (1,3); (1,4); (1,5); (1,6); (1,7); (2,0); (2,1); (2,2); (2,3); (2,4); (2,5); (2,6); (2,7)]
+  = map (fun bb => table_effect (fst bb) (snd bb))
+      [(1,0); (1,1); (1,2); (1,3); (1,4); (1,5); (1,6); (1,7); (2,0); (2,1); (2,2); (2,3); (2,4); (2,5); (2,6); (2,7)].
+Proof. exact MTab.iin_bit_effects_observed. Qed.
+Print Assumptions C17_tables_iin_bit_effects_observed.
+
+Theorem C17_tables_config_defaults : forall pd pe pi ps,
+  acfg_of_table gm_config_quiet pd pe pi ps = Some ms_acfg_quiet /\
+  acfg_of_table gm_config_default pd pe pi ps = Some ms_acfg_default /\
+  acfg_of_table gm_config_new pd pe pi ps = Some (ms_acfg_new pd pe pi ps) /\
+  gm_max_queued_user_requests = ms_c_maxq ms_acfg_default /\
+  (gm_retry_default_min_ms, gm_retry_default_max_ms, gm_timeout_default_ms) = (1000, 10000, 5000)%Z.
+Proof. exact MTab.config_defaults_agree. Qed.
+Print Assumptions C17_tables_config_defaults.
+
+(* the quiet configuration (the starting point of every harness) has no automatic task and no gate on
+   unsolicited responses *)
+Theorem C17_tables_quiet_config_has_no_auto_tasks : forall ts events now a,
+  (ms_ts_clear ts = MsAIdle -> ms_auto_next ms_acfg_quiet ts events now = MsNNone) /\
+  (ms_a_cfg a = ms_acfg_quiet -> ms_integrity_complete a = true).
+Proof. exact MTab.quiet_config_has_no_auto_tasks. Qed.
+Print Assumptions C17_tables_quiet_config_has_no_auto_tasks.
+
+(* the floor of the retry delay (repair of F15) *)
+Theorem C17_tables_min_retry_delay : forall d cfg now a,
+  ms_retry_delay d = Z.max d gm_min_retry_delay_ms /\
+  (exists x, MT.failure cfg now a = MT.AFailed x (now + N.max x (Z.to_N gm_min_retry_delay_ms))).
+Proof. exact MTab.min_retry_delay_agrees. Qed.
+Print Assumptions C17_tables_min_retry_delay.
+
+(* the next delay of the model is the generated chain of Duration operations *)
+Theorem C17_tables_backoff_next_is_table : forall limit s x,
+  bo_run limit s gm_backoff_next (BoV x) = Some (BoV (ms_next_delay limit (ms_s_max s) x)).
+Proof. exact MTab.backoff_next_is_table. Qed.
+Print Assumptions C17_tables_backoff_next_is_table.
+
+Theorem C17_tables_backoff_first_is_table : forall limit s,
+  Some (snd (ms_on_failure limit (ms_backoff_new s))) = bo_field gm_backoff_first s.
+Proof. exact MTab.backoff_first_is_table. Qed.
+Print Assumptions C17_tables_backoff_first_is_table.
+
+(* the doubling rule with the generated constants: factor, clamp to max, overflow saturates to max *)
+Theorem C17_tables_backoff_step_algebraic : forall limit max x, (0 <= x)%Z ->
+  ((max < limit)%Z -> ms_next_delay limit max x = Z.min (gm_backoff_factor * x) max) /\
+  ((limit <= gm_backoff_factor * x)%Z -> ms_next_delay limit max x = max).
+Proof. exact MTab.backoff_step_algebraic. Qed.
+Print Assumptions C17_tables_backoff_step_algebraic.
+
+Theorem C17_tables_function_codes : forall t,
+  match ms_task_name t with
+  | Some n => assoc_str n gm_task_function = Some (ms_task_fc t)
+  | None => True
+  end.
+Proof. exact MTab.ms_function_codes_agree. Qed.
+Print Assumptions C17_tables_function_codes.
+
+(* the objects of the automatic requests: clear restart = write_clear_restart *)
+Theorem C17_tables_clear_restart_object :
+  ms_task_objects MsTClearRestart = gm_clear_restart_object /\
+  MT.auto_objs mt_cfg_all MT.AClear = gm_clear_restart_object.
+Proof. exact MTab.clear_restart_object_agrees. Qed.
+Print Assumptions C17_tables_clear_restart_object.
+
+Theorem C17_tables_timesync : forall st promise seq,
+  forallb (fun r => match tsync_code (fst r) with
+                    | Some p => String.eqb (ts_state_name (ms_tsync_start_state p)) (snd r)
+                    | None => false end) gm_timesync_start = true /\
+  (match assoc_str (ts_state_name st) gm_timesync_function, assoc_str (ts_state_name st) gm_timesync_object with
+   | Some fc, Some None => Some [192 + seq; fc]
+   | Some fc, Some (Some (g, v)) =>
+       Some ([192 + seq; fc; g; v; gm_count_of_one_qualifier; gm_count_of_one_count] ++ ms_le48 (ms_state_time st))
+   | _, _ => None
+   end) = Some (ms_request_bytes seq (MsTTimeSync st promise)).
+Proof. exact MTab.ms_timesync_agrees. Qed.
+Print Assumptions C17_tables_timesync.
+
+(* the continuation of the time task in the association model follows gm_timesync_next *)
+Theorem C17_tables_timesync_next : forall now sys st p f a,
+  match snd (ms_nonread_handle now sys (MsTTimeSync st p) f a) with
+  | MsHContinue (MsTTimeSync st' _) => assoc_str (ts_state_name st) gm_timesync_next = Some (Some (ts_state_name st'))
+  | MsHContinue _ => False
+  | MsHComplete => assoc_str (ts_state_name st) gm_timesync_next = Some None
+  | MsHError _ => True
+  end.
+Proof. exact MTab.ms_timesync_next_agrees. Qed.
+Print Assumptions C17_tables_timesync_next.
+
+Example C17_tables_instance :
+  generated_auto_order = ["clear_restart_iin"; "disable_unsolicited"; "integrity_scan"; "time_sync";
+                          "enabled_unsolicited"; "event_scan"] /\
+  gm_on_restart_iin_demands = ["clear_restart_iin"; "integrity_scan"; "enabled_unsolicited"] /\
+  gm_backoff_next = [GmCheckedMul 2; GmUnwrapOr "max_delay"; GmMin "max_delay"] /\
+  length gm_handlers = 15%nat.
+Proof. repeat split. Qed.
